@@ -1,4 +1,5 @@
 import MorfuseModel.Sched.Machine
+import MorfuseModel.Sched.Snapshot
 import Driver.Util
 /-! driver for the scheduler machine (properties C05, C06, C07, C13; commands of harness/engine.cpp) -/
 namespace Driver.Sched
@@ -7,6 +8,7 @@ open Morfuse.Sched
 structure St where
   s : State := {}
   lastCall : Option Nat := none
+  saved : Option Snap := none
 
 def natsDot (x : String) : Option (List Nat) := (x.splitOn ".").mapM (·.toNat?)
 
@@ -108,6 +110,20 @@ def step (st : St) (t : List String) : St × String :=
       if status == "ok" then
         reply { s := s', lastCall := some c } status s!" ret={showRet (s'.getRet c)}"
       else reply { s := s', lastCall := none } status      -- the host's Event of the failed call holds no result
+  | ["callv", _name, label] =>
+    -- `director.ExecuteThread(script, label)`: no host Event, no result cell
+    match labelIdx label with
+    | none => (st, "bad-op")
+    | some l =>
+      let c := st.s.nextCall
+      let (s', status) := hostCall st.s l []
+      let s' := { s' with threads := s'.threads.map (fun e => (e.1, if e.2.call == some c then { e.2 with call := none } else e.2)) }
+      reply { st with s := s' } status
+  | ["save"] => reply { st with saved := some (save st.s) } "ok"
+  | ["load"] =>
+    match st.saved with
+    | none => (st, "bad-op")
+    | some k => reply { st with s := load (killAllInsts st.s) k } "ok"
   | ["thread-result"] =>
     match st.lastCall with
     | some c => reply st "ok" s!" ret={showRet (st.s.getRet c)}"
